@@ -40,7 +40,8 @@ D5 == [ int1 |-> <<"int", 1>>, f1 |-> <<"f64", FALSE, <<1>>, 0>>, f01 |-> <<"f64
 D16 == [ m |-> <<"map", [a |-> <<"map", [b |-> <<"map", [a |-> <<"int", 7>>, z |-> <<"nil">>]>>, z |-> <<"int", 0>>, n |-> <<"nilptr">>]>>,
                          b |-> <<"str", <<120>>>>, z |-> <<"nil">>, len |-> <<"int", 3>>]>>,
          tm |-> <<"tmapint", [a |-> 5, z |-> 0]>>,
-         st |-> <<"struct", [A |-> <<"int", 4>>, B |-> <<"map", [a |-> <<"f64", FALSE, <<2,5>>, -1>>]>>, N |-> <<"nilptr">>], <<"c">>>>,
+         st |-> <<"struct", [A |-> <<"int", 4>>, B |-> <<"map", [a |-> <<"f64", FALSE, <<2,5>>, -1>>]>>, N |-> <<"nilptr">>, P |-> <<"str", <<112>>>>], <<"c">>>>,
+         nm |-> <<"nilmap">>, ns |-> <<"nilslice">>,
          np |-> <<"nilptr">>, nl |-> <<"nil">>, s |-> <<"str", <<97>>>>, n |-> <<"int", 3>>, a |-> <<"int32", 9>>,
          len |-> <<"int", 99>>, abs |-> <<"str", <<104>>>>, bt |-> <<"bool", FALSE>>, sl |-> <<"slice", <<<<"int", 1>>>>>>,
          tt |-> <<"time", 0, 0, 0>> ]
@@ -51,7 +52,7 @@ D7b == [ x |-> <<"int", 1>>, rec |-> <<"func", "rec">>, recs |-> <<"func", "recs
 \* C03: one entry per supported kind, incl. the odd ones
 D3 == [ i |-> <<"int", 2>>, f |-> <<"f64", FALSE, <<1,5>>, -1>>, s |-> <<"str", <<97,98>>>>, b |-> <<"bool", TRUE>>, nl |-> <<"nil">>,
         np |-> <<"nilptr">>, m |-> <<"map", [k |-> <<"int", 1>>]>>, tm |-> <<"tmapint", [z |-> 0]>>, im |-> <<"imap">>,
-        st |-> <<"struct", [A |-> <<"int", 1>>, B |-> <<"nil">>, N |-> <<"nil">>], <<"c">>>>, ps |-> <<"ptrstruct", [A |-> <<"int", 1>>, B |-> <<"nil">>, N |-> <<"nil">>], <<"c">>>>,
+        st |-> <<"struct", [A |-> <<"int", 1>>, B |-> <<"nil">>, N |-> <<"nil">>, P |-> <<"nil">>], <<"c">>>>, ps |-> <<"ptrstruct", [A |-> <<"int", 1>>, B |-> <<"nil">>, N |-> <<"nil">>, P |-> <<"nil">>], <<"c">>>>,
         sl |-> <<"slice", <<<<"int", 1>>, <<"str", <<98>>>>>>>>, ss |-> <<"strs", <<<<97>>, <<98>>>>>>, u |-> <<"uint", 3>>,
         t |-> <<"time", 0, 0, 0>>, rec |-> <<"func", "rec">>, fail |-> <<"func", "fail">>, failv |-> <<"func", "failv">>, add2 |-> <<"func", "add2">>, cat |-> <<"func", "cat">>,
         nan |-> <<"f64nan">>, inf |-> <<"f64inf", FALSE>>, ninf |-> <<"f64inf", TRUE>> ]
